@@ -28,3 +28,9 @@ ASSUME.update({
          "JSON encoding/decoding of schema blobs and blob fetching are exercised, not modelled (part trees carry resolved contents)",
          "maxStaticSetMembers >= 3 (SetStaticSetMembers does not terminate for 2 and divides by zero for 1; the real value is 10000)"],
 })
+ASSUME.update({
+ "C07": ["claim dates are pairwise distinct in the cache theorem (Go's sort.Sort is unstable: with equal dates any order consistent with the dates is accepted by the SPEC monitor, and such worlds are not compared with the model)",
+         "the delete graph is acyclic (targets are hashes of already existing blobs): hypothesis 'rank' of the deletion theorems",
+         "URL-escaping of attribute values in index rows is exercised by the harness (values with '|', '%', '=', '&', non-ASCII), not modelled",
+         "signature verification of claims is assumed (C16)"],
+})
